@@ -21,12 +21,15 @@ def truthy(c):
     return True
 
 
+_TS = None
+
+
 class C04(framework.PropertyCheck):
     pid = 'C04'
     quick_cases = 300
     thorough_cases = 6000
     rule = ('random conditions of the trace-reading fragment (incl. @, x/z-valued signals, scoped/grouped references, virtual signals, user '
-            'functions) and bodies that print INDEX, accumulate into a variable and step inside a timeframe; every start index of generated '
+            'functions; in 30 % of the cases also a user variable named like a binder of a library macro template) and bodies that print INDEX, accumulate into a variable and step inside a timeframe; every start index of generated '
             'traces (N<=7); one trace for find/count, one or two (different lengths, different start positions) for find/g and whenever; the '
             'condition is evaluated independently at every visited position by explicit stepping; non-trivial = condition truthy at some but '
             'not all visited positions')
@@ -47,8 +50,20 @@ class C04(framework.PropertyCheck):
             starts = [[rng.randrange(l) for l in lens] for _ in range(2)]
             if tier == 'thorough' and ntr == 1:
                 starts = [[i] for i in range(lens[0])]
-            yield {'tids': tids, 'lens': lens, 'seeds': [rng.randrange(1 << 30) for _ in tids], 'c': c, 'starts': starts,
-                   'body': rng.choice(['print', 'acc', 'timeframe', 'value'])}
+            case = {'tids': tids, 'lens': lens, 'seeds': [rng.randrange(1 << 30) for _ in tids], 'c': c, 'starts': starts,
+                    'body': rng.choice(['print', 'acc', 'timeframe', 'value'])}
+            if rng.random() < 0.3:
+                # the condition also reads a user variable; its name is drawn from the names the library's macro templates bind
+                # (count, find and whenever must treat the condition as the caller wrote it)
+                global _TS
+                if _TS is None:
+                    from .c15 import template_symbols
+                    _TS = sorted(set(template_symbols()) - {'acc', 'v', 'w', 'rd', 'isclk', 'k'}) or ['n']
+                v = rng.choice(_TS)
+                sig = ('top.cnt' if ntr == 1 else f'{tids[0]}^top.cnt')
+                case['uservar'] = [v, rng.randint(0, 4)]
+                case['c'] = f'(|| (= {sig} {v}) (&& (> {v} 1) {c}))'
+            yield case
 
     def _goto(self, case, pos):
         if len(case['tids']) == 1:
@@ -67,6 +82,8 @@ class C04(framework.PropertyCheck):
         for d in (gen_expr.PRELUDE_SINGLE if single else gen_expr.prelude_multi(case['tids'])):
             steps.append(('eval', 'eorg', d))
         steps.append(('eval', 'eorg', '(define acc 0)'))
+        if case.get('uservar'):
+            steps.append(('eval', 'eorg', f'(define {case["uservar"][0]} {case["uservar"][1]})'))
         c = case['c']
         idx = self._idx(case)
         plan = []
